@@ -44,6 +44,10 @@ fn faulty_units() -> Vec<(Unit, FaultKind)> {
         (Unit::hdr(":B"), FaultKind::Arity),
         (Unit::hdr(":B").with(&[L1, L2]), FaultKind::Arity),
         (Unit::hdr(":A:B").with(&[L1]), FaultKind::Arity),
+        // one more than the largest supported parameter list, on a handler that declares that many
+        (Unit::hdr(":A:T").with(&[L1, L2, L1, L2, L1, L2, L1, L2, L1, L2, L5]), FaultKind::Arity),
+        (Unit::hdr(":A:T").with(&[L1, L2, L1, L2, L1, L2, L1, L2, L1]), FaultKind::Arity),
+        (Unit::hdr(":A:W").with(&[L1, L2, L1, L2, L1, L2]), FaultKind::Arity),
         (Unit::hdr(":B").with(&[L300]), FaultKind::Unconvertible),
         (Unit::hdr(":B").with(&[LSX]), FaultKind::Unconvertible),
         (Unit::hdr(":A:S").with(&[L5]), FaultKind::Unconvertible),
@@ -70,6 +74,7 @@ fn alphabet(iface: &Iface) -> Vec<M> {
         (Msg::of(vec![Unit::hdr("B?")]), None),
         (Msg::of(vec![Unit::hdr("A:B"), Unit::hdr("E"), Unit::hdr(":B?")]), None),
         (Msg::of(vec![Unit::hdr("A:N").with(&[L5, LSAB])]), None),
+        (Msg::of(vec![Unit::hdr("A:T").with(&[L1, L2, L1, L2, L1, L2, L1, L2, L1, L5])]), None),
     ];
     for (f, k) in faulty_units() {
         msgs.push((Msg::of(vec![f.clone()]), Some(k.clone())));
